@@ -209,6 +209,21 @@ fn do_resolve<Fd: AsFd, P: AsRef<Path>>(
     );
     let mut current = Rc::clone(&root);
 
+    // Like openat2(2) (and every other path-taking syscall without
+    // AT_EMPTY_PATH), an empty path does not name the root: it is ENOENT.
+    if path.as_ref().as_os_str().is_empty() {
+        drop(root);
+        return Ok(PartialLookup::Partial {
+            handle: current,
+            remaining: PathBuf::new(),
+            last_error: ErrorImpl::OsError {
+                operation: "resolve empty path".into(),
+                source: IOError::from_raw_os_error(libc::ENOENT),
+            }
+            .into(),
+        });
+    }
+
     // Get initial set of components from the passed path. We remove components
     // as we do the path walk, and update them with the contents of any symlinks
     // we encounter. Path walking terminates when there are no components left.
